@@ -88,9 +88,20 @@ theorem wideRev_eq' (l : List Layer) : wideRev l = l.reverse := by
 theorem injections_no_own (k : Nat) : (injections k).filter (· == Layer.own) = [] := by
   simp [injections, List.filter_eq_nil_iff]
 
-theorem deep_own (k : Nat) (m : Method) (hm : m.isLife = true) : (deep k m).filter (· == Layer.own) = [Layer.own] := by
-  cases m <;> simp [Method.isLife] at hm <;>
-    simp [deep, wideFwd_eq', wideRev_eq', List.filter_append, injections_no_own, List.filter_reverse]
+/-- whatever the translated call-order tables say, a delivery reaches the state's own callback exactly once -/
+theorem deep_own_any (k : Nat) (m : Method) : (deep k m).filter (· == Layer.own) = [Layer.own] := by
+  unfold deep
+  have hw : ∀ b : Bool, (if b then wideRev (injections k) else wideFwd (injections k)).filter (· == Layer.own) = [] := by
+    intro b; cases b <;> simp [wideFwd_eq', wideRev_eq', injections_no_own, List.filter_reverse]
+  cases m <;> first
+    | rfl
+    | (dsimp only
+       generalize Gen.restFirstCodes.contains _ = b1
+       generalize Gen.ownFirstCodes.contains _ = b2
+       cases b2 <;> simp [List.filter_append, hw b1])
+
+theorem deep_own (k : Nat) (m : Method) (_hm : m.isLife = true) : (deep k m).filter (· == Layer.own) = [Layer.own] :=
+  deep_own_any k m
 
 /-- a lifecycle delivery contributes exactly its own `(method, state)` to the signature -/
 theorem sig_deliver (env : Env) (m : Method) (hm : m.isLife = true) (sid : Nat) (cur pend : Tr) (s : St) :
